@@ -271,4 +271,65 @@ def wf (r : Req) : Bool :=
 def ReproducesAll (vs : Variants) : Prop :=
   ∀ (tbl : Table) (r : Req), wf r = true → reproduces tbl (original r) (generate vs tbl r) = true
 
+/-! ### (d) which request a failure report stands for (written from the property statement, over the history)
+
+  The property speaks of "the curl command shown for a test case" and "the original request": in a scenario the
+  original request of test case `id` is the one most recently recorded for `id`, the test case is the one most
+  recently recorded under `id`.  A failure is reported for the test case it names, and for the case under validation
+  when it names none. -/
+
+/-- the test case a failure is reported for -/
+def failingId (validated : Str) (named : Option Str) : Str :=
+  match named with
+  | none => validated
+  | some [] => validated
+  | some n => n
+
+def caseWrite (id : Str) : Op → Option CaseVal
+  | .recordCase _ c => if c.id = id then some c else none
+  | _ => none
+
+def sentWrite (id : Str) : Op → Option Interaction
+  | .recordResponse i r v => if i = id then some ⟨r, some v⟩ else none
+  | .recordRequest i r => if i = id then some ⟨r, none⟩ else none
+  | _ => none
+
+/-- the test case most recently recorded under `id` -/
+def lastCase (h : List Op) (id : Str) : Option CaseVal := h.reverse.findSome? (caseWrite id)
+
+/-- the exchange most recently recorded for `id` -/
+def lastSent (h : List Op) (id : Str) : Option Interaction := h.reverse.findSome? (sentWrite id)
+
+/-- what the report of a failure of test case `id` has to be built from after the history `h`: that case, the
+    headers of the request sent for it (first value of each), the `verify` flag of its response.  (Which exception
+    is raised when something is missing is not part of the property; it is fixed here so that model and
+    specification can be stated equal.) -/
+def expectedData (h : List Op) (id : Str) : Except RecErr FailureData :=
+  match lastCase h id with
+  | none => .error .keyError
+  | some c =>
+    match lastSent h id with
+    | none => .error .keyError
+    | some ia =>
+      match ia.verify with
+      | none => .error .assertionError
+      | some v =>
+        match firstValues ia.request.headers with
+        | .ok hs => .ok ⟨c, hs, v⟩
+        | .error e => .error e
+
+/-- the request that was sent for an exchange, as the property sees it -/
+def sentOriginal (ia : Interaction) (headers : List (Str × Str)) (verify : Bool) : Original :=
+  ⟨ia.request.method, ia.request.uri, headers, ia.request.body, verify⟩
+
+/-- re-preparing the case with the headers of the request that was sent gives that request again, up to the order
+    of the header fields (a statement about `requests` and the serializers; measured by the harness on every real
+    case: `requests` puts the headers of the case before the ones passed in) -/
+def Faithful (prep : Nat → List (Str × Str) → Prepared) (c : CaseVal) (ia : Interaction) (hs : List (Str × Str)) : Prop :=
+  (prep c.obj hs).method = ia.request.method ∧ (prep c.obj hs).url = ia.request.uri
+    ∧ (prep c.obj hs).body = ia.request.body ∧ ∀ kv, kv ∈ (prep c.obj hs).headers ↔ kv ∈ hs
+
+/-- the prepared request as `generate` receives it -/
+def preparedReq (p : Prepared) (verify : Bool) : Req := ⟨p.method, p.url, p.body, verify, p.headers, p.known⟩
+
 end SV.Spec.C09
